@@ -188,9 +188,10 @@ func (l *ledGen) blockWith(parent string, txs []*gTx) *gBlock {
 }
 
 // staleConflict: the directed form of the situation above.
-//   wallet caught up · block with T1 (spends a wallet coin c) connected and notified · the node reorganises that
-//   block away and builds two blocks the wallet is not told about yet · T2 (spends c) delivered · compare ·
-//   catch up · compare · (the ordinary stream continues: T1 is a re-mining candidate, T2 a pool transaction)
+//
+//	wallet caught up · block with T1 (spends a wallet coin c) connected and notified · the node reorganises that
+//	block away and builds two blocks the wallet is not told about yet · T2 (spends c) delivered · compare ·
+//	catch up · compare · (the ordinary stream continues: T1 is a re-mining candidate, T2 a pool transaction)
 func (l *ledGen) staleConflict() {
 	l.drain()
 	if !l.walletOnBestChain() || len(l.synced) != len(l.chain) {
